@@ -32,9 +32,15 @@ def run_c02(ctx):
 def l1_both(ctx, release_scale_quick="0.25", miri_shards=0):
     """checked build fully; release build fully (thorough) or on a sample (quick)."""
     res = Result()
-    res.add_lv(common.run_lv(ctx, "checked"))
     extra = [] if ctx.thorough() else ["--scale", release_scale_quick]
-    res.add_lv(common.run_lv(ctx, "release", extra))
+    for profile, ex in (("checked", None), ("release", extra)):
+        try:
+            res.add_lv(common.run_lv(ctx, profile, ex))
+        except common.Inconclusive as e:
+            # an in-process layer that could not finish decides nothing by itself, but the other
+            # layers (the CLI monitors) still run: what they see is reported; if they see nothing
+            # the check ends undecided, never "held"
+            res.layer_incomplete.append("%s: %s" % (profile, str(e)[:300]))
     if ctx.thorough() and miri_shards:
         import layers
         layers.miri(ctx, res, ctx.pid, shards=miri_shards)
